@@ -363,6 +363,16 @@ func (c *Ctl) RecvFrame(ch *ConnH) (*wire.Msg, []byte, error) {
 	}
 }
 
+// CloseQuiet releases the client end of a connection the server has already ended (no event).
+func (c *Ctl) CloseQuiet(ch *ConnH) {
+	defer func() { recover() }() // wq may be closed already
+	ch.Closed = true
+	_ = ch.cli.Close()
+	ch.Writing = false
+	close(ch.wq)
+	c.Wait()
+}
+
 // Close closes the client end (the server sees EOF) and waits.
 func (c *Ctl) Close(ch *ConnH) {
 	ch.Closed = true
